@@ -1,6 +1,7 @@
 package chainsim
 
 import (
+	"strings"
 	"encoding/hex"
 	"fmt"
 	"math/big"
@@ -955,6 +956,20 @@ func (g *gen) genTx(bi int) {
 		}
 		if r.Chance(0.05) {
 			s.ParamKey = []string{"pos/Nope", "nope", "gov/", "/acl", "auth/FeeMultipliers/x"}[r.Intn(5)]
+			if r.Chance(0.5) {
+				// a key that is not literally in the ACL but could be "normalised" into one the sender owns while
+				// the write goes elsewhere: dot segments, doubled or trailing slashes, blanks
+				owned, victim := AllParamKeys[r.Intn(len(AllParamKeys))], AllParamKeys[r.Intn(len(AllParamKeys))]
+				for k, o := range g.m.P.ACL {
+					if o == s.Acct && r.Chance(0.5) {
+						owned = k
+					}
+				}
+				tail := owned[strings.Index(owned, "/")+1:]
+				s.ParamKey = []string{victim + "/../" + tail, victim + "/../../" + owned, strings.Replace(owned, "/", "//", 1), owned + "/", " " + owned, owned + " ",
+					strings.Replace(victim, "/", "/./", 1)}[r.Intn(7)]
+				s.ParamVal = g.paramValue(victim)
+			}
 		}
 	case "dao_transfer", "dao_burn":
 		if r.Chance(0.6) && g.m.P.DAOOwner >= 0 {
@@ -965,6 +980,9 @@ func (g *gen) genTx(bi int) {
 		s.To = g.pickAcct()
 		if r.Chance(0.06) {
 			s.To = []int{AcctLong, AcctShort}[r.Intn(2)]
+		}
+		if r.Chance(0.05) {
+			s.To = []int{AcctDAO, AcctDAO, AcctPool}[r.Intn(3)] // to the DAO itself: must change nothing
 		}
 		dao := g.balance(AcctDAO)
 		switch r.Pick([]int{3, 2, 2, 3}) {
@@ -1102,9 +1120,9 @@ func (g *gen) genTx(bi int) {
 		case 1:
 			s.ChainID = "otherchain"
 		case 2:
-			s.Mut = []string{"fee", "memo", "entropy", "msg", "sigbit", "sigtrunc", "pubkey", "sflip", "nomsg", "nopubstake", "msigshort"}[r.Intn(11)]
-			if isMultiType(g.kr.Get(s.SignBy).Type) && r.Chance(0.5) {
-				s.Mut = "msigshort"
+			s.Mut = []string{"fee", "memo", "entropy", "msg", "sigbit", "sigtrunc", "pubkey", "sflip", "nomsg", "nopubstake", "msigshort", "hashsig"}[r.Intn(12)]
+			if isMultiType(g.kr.Get(s.SignBy).Type) && r.Chance(0.6) {
+				s.Mut = []string{"msigshort", "onecosigner"}[r.Intn(2)]
 			}
 		case 3:
 			s.KeySrc = "state"
@@ -1156,6 +1174,11 @@ func (g *gen) paramValue(k string) string {
 		fm := authTypes.FeeMultipliers{Default: int64(r.Range(1, 3))}
 		if r.Chance(0.5) {
 			fm.FeeMultis = append(fm.FeeMultis, authTypes.FeeMultiplier{Key: "send", Multiplier: int64(r.Range(0, 3))})
+		}
+		if r.Chance(0.15) {
+			// a prohibitive multiplier for one message type (base fee x multiplier beyond 2^63)
+			typ := []string{"send", "stake_validator", "dao_tranfer", "begin_unstaking_validator"}[r.Intn(4)]
+			fm.FeeMultis = append(fm.FeeMultis, authTypes.FeeMultiplier{Key: typ, Multiplier: []int64{1 << 60, 1<<60 + 1, 1 << 62, 922337203685478}[r.Intn(4)]})
 		}
 		return ParamJSON(fm)
 	case "gov/acl":
